@@ -112,4 +112,70 @@ Corollary continue_async_leaves_nothing_undelivered limited w w' :
   continue_async I sw limited w = (OOk tt, w') -> w_handler w' = true ->
   ss_errors (w_state w') = [] /\ ss_warnings (w_state w') = [].
 Proof. intros E. exact (post_continue_async limited w tt w' E). Qed.
+
+(* ---------- handler or not: an Ok return leaves no ERROR pending ----------
+   Without a handler an error on record makes the delivery block (hence the continue) return Err; with one it is
+   delivered.  So whenever a continue returns Ok, no error is pending: an error is never silently kept. *)
+Definition errs (w : world) := ss_errors (w_state w).
+Definition NoErrorPending (w : world) : Prop := errs w = [].
+Lemma noerr_errs w w' : errs w' = errs w -> NoErrorPending w -> NoErrorPending w'.
+Proof. unfold NoErrorPending. congruence. Qed.
+
+Lemma post_deliver_noerr : Post NoErrorPending (deliver_errors sw).
+Proof.
+  intros w x w' E. unfold NoErrorPending, errs.
+  destruct (w_handler w) eqn:Hh.
+  - destruct (delivered_once_with_handler w Hh) as [w'' [E2 [_ [He _]]]].
+    rewrite E2 in E. injection E as _ <-. exact He.
+  - destruct (ss_errors (w_state w)) as [|e0 es] eqn:Ee.
+    + unfold deliver_errors in E. unfold mbind at 1 in E. unfold get at 1 in E.
+      unfold ss_has_error in E. rewrite Ee, Hh in E. cbn [orb] in E.
+      destruct (ss_has_warning (w_state w)).
+      * unfold reset_errors, mod_state, modify in E. injection E as _ <-. destruct w as [? st]; destruct st; reflexivity.
+      * unfold ret in E. injection E as _ <-. exact Ee.
+    + assert (Hne : ss_errors (w_state w) <> []) by (rewrite Ee; discriminate).
+      destruct (no_handler_error_is_err w Hh Hne) as [msg E2]. rewrite E2 in E. discriminate.
+Qed.
+
+Lemma keeps_errs_dec b : Keeps errs (when b (modify (fun w => w <| w_rcc ::= N.pred |>))).
+Proof. apply keeps_when. apply keeps_modify. intros []; reflexivity. Qed.
+Lemma keeps_errs_notify (changed : option (list (text * value))) :
+  Keeps errs (match changed with
+              | Some m => mfor m (fun kv => notify_variable_changed (fst kv) (snd kv))
+              | None => ret tt
+              end).
+Proof.
+  destruct changed as [m|]; [|apply keeps_ret]. apply keeps_mfor. intros kv.
+  apply (hk_notify errs); fld.
+Qed.
+
+Theorem post_continue_internal_noerr limited : Post NoErrorPending (continue_internal I sw limited).
+Proof.
+  unfold continue_internal.
+  apply post_bind_r; intros w00. apply post_bind_r; intros can0.
+  destruct (_ && _ && _); [apply post_fail|].
+  do 7 (apply post_bind_r; intros ?).
+  apply post_bind_r; intros changed.
+  apply post_bind_r; intros ?.
+  apply (post_bind_keeps errs); [exact noerr_errs|exact post_deliver_noerr|]. intros ?.
+  apply keeps_bind; [apply keeps_errs_dec|]. intros ?. apply keeps_errs_notify.
+Qed.
+
+Theorem post_api_cont_noerr : Post NoErrorPending (api_cont I sw).
+Proof.
+  unfold api_cont. apply (post_bind_keeps errs); [exact noerr_errs| |].
+  - unfold story_cont. apply (post_bind_keeps errs); [exact noerr_errs| |].
+    + unfold continue_async, cont_internal. do 2 (apply post_bind_r; intros ?). apply post_continue_internal_noerr.
+    + intros ?. unfold get_current_text.
+      apply keeps_bind; [apply (hk_if_async errs)|]. intros ?.
+      apply keeps_bind; [apply keeps_gets|]. intros s. apply keeps_ret.
+  - intros t. apply keeps_bind; [|intros ?; apply keeps_ret]. apply keeps_modify. intros []; reflexivity.
+Qed.
+
+Corollary cont_ok_leaves_no_error_pending w t w' :
+  api_cont I sw w = (OOk t, w') -> ss_errors (w_state w') = [].
+Proof. intros E. exact (post_api_cont_noerr w t w' E). Qed.
+Corollary continue_ok_leaves_no_error_pending limited w w' :
+  continue_internal I sw limited w = (OOk tt, w') -> ss_errors (w_state w') = [].
+Proof. intros E. exact (post_continue_internal_noerr limited w tt w' E). Qed.
 End DeliveryAll.
